@@ -758,6 +758,32 @@ def baseline_case(case, res):
                                   f"whose span contains the time", case, sub)
                 else:
                     res.hits["junction times far from the start of the file"] += 1
+        # the same file with an entry occurring twice, and as an unsorted subset with repeated rows: same predictions
+        dup_text = "".join(e.text() for e in (ents[0], ents[1], ents[2], ents[2], ents[3]))
+        for what, q in (("entry twice in the text", lambda: pb.PhasePredictor.from_polyco(io.StringIO(dup_text))),
+                        ("subset with repeated rows", lambda: p[[3, 2, 2, 0, 1, 2]])):
+            try:
+                pq = q()
+            except Exception as ex:
+                res.violation("baseline|duplicated rows raised", f"{what}: {type(ex).__name__}: {ex}", case, {"what": what})
+                continue
+            for dn in (1, 2, 10, -1):
+                m = ents[2].stop + dn * ns
+                t = mjd_time(m)
+                me = exact_mjd(t)
+                cs_ = [e for e in ents if e.contains(me)]
+                res.transitions += 1
+                try:
+                    got = phase_exact_of(pq(t))[0]
+                    got2 = phase_exact_of(pq(Time([t.jd1, t.jd1], [t.jd2, t.jd2], format="jd", scale="utc")))[1]
+                except Exception as ex:
+                    res.violation("baseline|duplicated rows raised", f"{what}: {type(ex).__name__}: {ex}", case, {"what": what})
+                    continue
+                if cs_ and max(min(abs(g - c.phase(me)) for c in cs_) for g in (got, got2)) > budget(ents[0].f0):
+                    res.violation("baseline|duplicated rows", f"{what}, sessions {gap_days} d apart: p(junction {dn:+d} ns) is not the "
+                                  f"formula of an entry whose span contains the time", case, {"what": what, "dn": dn})
+                else:
+                    res.hits["duplicated rows"] += 1
     # the table edited in place AFTER the intervals were read
     ents = polyco.make_entries(3, "gap10min", 90, "641.928232294317", "146750669817.214345", 5, "e")
     for what, edit, keep in (("remove_row(0)", lambda q: q.remove_row(0), [1, 2]), ("remove_rows([0, 2])", lambda q: q.remove_rows([0, 2]), [1]),
@@ -832,7 +858,7 @@ def main(argv=None):
                        "time_at: p(time_at(ph)) compared with ph in cycles", "time_at on a dense family late in a long interval",
                        "empty subset: everything is outside", "one-entry files on a day's grid of TMIDs", "text layouts", "phase inside a junction jump refused",
                        "phase next to a junction jump inverted", "junction times far from the start of the file",
-                       "table edited in place after its intervals were read"],
+                       "table edited in place after its intervals were read", "duplicated rows"],
         assumptions=["decimal strings of the text are the exact inputs; time is the exact (jd1, jd2) of the Time object; budget "
                      "1e-8 cycle + F0*86400*2^-51", "times inside a < 1 ms gap between spans and exactly on a span end are "
                      "unconstrained (grid uses ends +-1 us)", "time_at is exercised only where the prediction is continuous"],
